@@ -11,7 +11,7 @@ A contract module under /verif/contracts is an ordinary Python module:
 Nothing here imports taskchain.
 """
 from . import kinds as K
-from .kinds import Int, Bool, Str, Path, Dyn, DynL, U, Opt, Tup, Rec, Seq, Map  # re-exported for contract modules
+from .kinds import Int, Bool, Str, Path, Dyn, DynL, U, Opt, Tup, Rec, Seq, Map, Cls as ClsTag  # re-exported for contract modules
 
 
 # ---------------------------------------------------------------- shapes of symbolic inputs
@@ -30,9 +30,9 @@ class S(Shape):
 class Obj(Shape):
     """A heap object of a /repo class with the given field shapes (other attributes come from the class)."""
 
-    def __init__(self, cls, _name=None, **fields):
+    def __init__(self, cls, **fields):
         self.cls = cls
-        self.name = _name
+        self.name = None
         self.fields = fields
 
 
@@ -105,7 +105,7 @@ class Prop:
     """Attribute of an abstract object: a stable field (fresh symbol on first read) unless `fn` given."""
 
     def __init__(self, kind=None, fn=None, settable=False, const=None):
-        self.kind = kind
+        self.kind = kind            # Kind, or an Abs shape for a nested abstract object
         self.fn = fn
         self.settable = settable
         self.const = const
@@ -116,7 +116,9 @@ class Meth:
     ret: Kind | None | callable(ex, ref, args)->value ; raises: False | True | [exception class names];
     pure: result is a function of (object, ghost epoch, args) ; effect(ex, ref, args, ret) mutates ghost state."""
 
-    def __init__(self, ret=None, raises=False, pure=False, effect=None, pre=None, event=True, nargs=None):
+    def __init__(self, ret=None, raises=False, pure=False, effect=None, pre=None, event=True, nargs=None, field=None, native=None):
+        self.field = field          # the method returns this field of the object (no event)
+        self.native = native        # native stub behaviour: callable(stub, *args)
         self.ret = ret
         self.raises = raises
         self.pure = pure
